@@ -570,7 +570,17 @@ class Verifier(Exec):
                         not isinstance(a, tuple) and parse_kind(a)[0] == "ref" for a in alts):
                     s.env["result"] = SV("ref", z3.IntVal(0))
             for nm, txt in con.ensures.items():
-                self.oblige(s, "%s:post:%s" % (con.name, nm), self.spec(txt, ctx, state=s))
+                try:
+                    goal = self.spec(txt, ctx, state=s)
+                    detail = ""
+                except Unsupported as e:
+                    # the clause speaks about a value of another kind than the one
+                    # returned on this path (e.g. a container was promised, an
+                    # operand came back): the clause does not hold of it
+                    goal = z3.BoolVal(False)
+                    detail = "clause not meaningful for the returned %s value: %s; path %s" % (
+                        o[1].kind, e, " / ".join(s.trace[-8:]))
+                self.oblige(s, "%s:post:%s" % (con.name, nm), goal, detail)
             self.frame_obligations(con, pre, s, "post")
         elif o[0] == "raise":
             ecls = o[1].x[0]
